@@ -237,6 +237,7 @@ func trkHTTPAnnounce(c *Ctx, hc httpCase, tc trkCase) {
 	h := httpfe.VerifHandler(wl, httpfe.Config{AnnounceRoutes: []string{"/announce"}, ScrapeRoutes: []string{"/scrape"},
 		ParseOptions: httpfe.ParseOptions{AllowIPSpoofing: hc.spoof, RealIPHeader: hc.hdrName, MaxNumWant: hc.maxnw, DefaultNumWant: hc.defnw, MaxScrapeInfoHashes: hc.maxsc}})
 	op := "trk.http_announce uri=" + hx([]byte(hc.uri)) + " " + envArgs(hc) + " hdrname=" + hx([]byte(hc.hdrName)) + " raddr=" + hx([]byte(hc.remoteAddr)) + " " + tc.args()
+	c.Begin(op)
 	selfOnly := false
 	defer func() { _ = selfOnly }()
 	obs := func() (o string) {
@@ -401,6 +402,7 @@ func trkUDP(c *Ctx, uc udpCase, tc trkCase) {
 	}
 	op := fmt.Sprintf("trk.udp pkt=%s src=%s now=%d skew=%d spoof=%s maxnw=%d defnw=%d maxscrape=%d tag=%s gtag=%s lowmap=%s %s",
 		hx(uc.pkt), hx(uc.src), uc.now, uc.skew, b01(uc.spoof), uc.maxnw, uc.defnw, uc.ms, hx(tag), hx(gtag), lowmapOf(urlDataOf(optArea)), tc.args())
+	c.Begin(op)
 	selfOnly := false
 	obs := func() (o string) {
 		defer func() {
